@@ -71,8 +71,20 @@ func startLabels(st *Start) []string {
 		} else {
 			refd++
 		}
-		if s.ID != "" && s.ID != fmt.Sprintf("rId%d", i+2) {
+		if s.ID != "" && s.ID != fmt.Sprintf("rId%d", i+st.firstID()) {
 			add("ids-not-contiguous")
+		}
+		if st.relID(i) == "rId1" {
+			add("header-footer-relationship-is-rId1")
+		}
+		if id := st.relID(i); strings.HasPrefix(id, "rId") && len(id) >= 5 {
+			add("header-footer-id-past-rId9")
+		}
+		if s.Body != "" {
+			add("part-body-" + s.Body)
+		}
+		if s.hasPage() && !s.Unref {
+			add("kind-defined-with-page-field")
 		}
 		// the part carries the name the library uses for ANOTHER slot
 		for _, k := range allKeys {
@@ -90,6 +102,48 @@ func startLabels(st *Start) []string {
 	if st.File {
 		add("opened-from-file")
 	}
+	if st.NoStyles {
+		add("no-styles-part")
+	}
+	if st.Pad > 0 {
+		add("other-relationships-in-front")
+	}
+	if st.Pad+len(st.Slots) > 64 {
+		add("more-than-64-relationships")
+	}
+	if len(st.Earlier) > 0 {
+		add("multi-section")
+		shared, own := false, false
+		for _, es := range st.Earlier {
+			for _, i := range es.Refs {
+				if st.Slots[i].Unref {
+					own = true
+				} else {
+					shared = true
+				}
+			}
+		}
+		if own {
+			add("multi-section:earlier-section-has-parts-of-its-own")
+		}
+		if shared {
+			add("multi-section:earlier-section-shares-a-part-with-the-last")
+		}
+		if len(st.Earlier) >= 9 {
+			add("multi-section:ten-or-more-sections")
+		}
+	}
+	nh, nf := 0, 0
+	for _, s := range st.Slots {
+		if s.Footer {
+			nf++
+		} else {
+			nh++
+		}
+	}
+	if nh >= 10 || nf >= 10 {
+		add("ten-or-more-parts-of-one-side")
+	}
 	add(fmt.Sprintf("kinds-defined=%d", refd))
 	return out
 }
@@ -102,6 +156,21 @@ func startShape(s StartSlot) string {
 	if s.Unref {
 		x += "+unref"
 	}
+	if s.Body != "" {
+		x += "+" + s.Body
+	}
+	return x
+}
+
+// startLayoutShape is the part of the structural signature that describes the package as a whole.
+func startLayoutShape(st *Start) string {
+	x := fmt.Sprintf("start-layout:first-id=%d", st.firstID())
+	if st.NoStyles {
+		x += ",nostyles"
+	}
+	for _, es := range st.Earlier {
+		x += fmt.Sprintf(",sect%v", es.Refs)
+	}
 	return x
 }
 
@@ -112,6 +181,12 @@ func noteForeignDef(res *kit.Result, st *Start, k key, nBefore int) {
 	if st == nil {
 		return
 	}
+	if len(st.Earlier) > 0 {
+		res.Label("foreign-start:multi-section:definition-call")
+	}
+	if st.NoStyles {
+		res.Label("foreign-start:no-styles-part:definition-call")
+	}
 	if s, ok := st.slot(k); ok {
 		if nBefore == 1 {
 			res.Label("foreign-start:redefine-existing-kind")
@@ -121,6 +196,9 @@ func noteForeignDef(res *kit.Result, st *Start, k key, nBefore int) {
 			}
 			if s.Pic {
 				res.Label("foreign-start:redefine-existing-kind:part-with-own-rels")
+			}
+			if s.hasPage() {
+				res.Label("foreign-start:redefine-existing-kind:part-with-page-field")
 			}
 		}
 		return
